@@ -99,6 +99,14 @@ var profiles = map[string]profile{
 			}
 			if len(g.Weights) >= 4 {
 				g.Cheaters = 1
+				g.ForkProb = 0.25
+			}
+			if k%2 == 1 { // a slow first validator in a dense DAG: roots that pass several frames and get elected
+				g.MaxParents = len(g.Weights)
+				g.OldParent = 0.02
+				g.Partition = false
+				g.LagHeavy = true
+				g.Cheaters = 0
 			}
 			return g
 		},
@@ -188,11 +196,20 @@ var profiles = map[string]profile{
 			return []PlayOpts{{Order: o, Builds: 0.8, Rejects: 0.8, BuildEach: true}, {Order: o}}
 		},
 	},
-	// restart at every boundary
+	// restart at every boundary, at sparse boundaries (caches warm in between) and never (twin)
 	"c08": {
-		gen: func(r *rand.Rand, k int) GenCfg { return multiEpoch(r, baseGen(r, k)) },
+		gen: func(r *rand.Rand, k int) GenCfg {
+			g := multiEpoch(r, baseGen(r, k))
+			if k%2 == 1 && len(g.Weights) >= 4 {
+				g.Cheaters = 1 + r.Intn(2)
+				g.ForkProb = 0.3
+				g.SiblingForks = 0.6
+			}
+			return g
+		},
 		plays: func(r *rand.Rand, k int) []PlayOpts {
-			return []PlayOpts{{Order: orders[k%3], RestartEvery: 1}, {Order: "gen", RestartEvery: 1, BuildEach: true}}
+			return []PlayOpts{{Order: orders[k%3], RestartEvery: 1}, {Order: "gen", RestartEvery: 1, BuildEach: true},
+				{Order: orders[(k+1)%3], RestartEvery: 5 + r.Intn(9)}, {Order: orders[(k+1)%3]}}
 		},
 	},
 	// epoch sealing and direct resets
